@@ -213,6 +213,25 @@ def _corpus_shard(files):
     return part
 
 
+def quote_heavy_nests():
+    """f-strings nested three and four levels deep (all four kinds of quotes, valid before 3.12) whose
+    OUTER literal text begins / ends with quotes, holds three in a row or a backslash"""
+    sq, dq = chr(39), chr(34)
+    pieces = ["", "x", "\\" + sq, ("\\" + sq) * 3, "a\\" + sq, "\\" + dq, ("\\" + dq) * 3, "\\" + sq + "\\" + dq,
+              "\\\\", "{{", "\\n", sq, sq * 2, dq + sq]
+    out = []
+    t3, t3s = dq * 3, sq * 3
+    for p1 in pieces:
+        for p2 in pieces:
+            if (p1 + p2).count(dq * 3) or p2.endswith(dq) and not p2.endswith("\\" + dq):
+                continue
+            inner3 = "f" + t3s + "{f" + dq + "{x}" + dq + "}" + t3s
+            inner4 = "f" + t3s + "{f" + dq + "{d[" + sq + "k" + sq + "]}" + dq + "}" + t3s
+            out.append("f" + t3 + p1 + "{" + inner3 + "}" + p2 + t3)
+            out.append("f" + t3 + p1 + "{" + inner4 + "!r:>9}" + p2 + t3)
+    return out
+
+
 def run(report):
     quick = report.tier == "quick"
     report.rule = RULE
@@ -250,6 +269,7 @@ def run(report):
         srng = random.Random(env.sub_seed(report.seed, "C04", "hstr"))
         for st_ in srng.sample(strings, min(len(strings), 1500 if quick else 20000)):
             hs += [src for pos, src in lit.positions(st_)]
+        hs += quote_heavy_nests()
         per = max(1, env.NPROC // len(others))
         items += [(c03.host_roundtrip_shard, (h, hs[j::per], "C04")) for h in others for j in range(per)]
         report.extra["other_hosts"] = others
